@@ -188,6 +188,16 @@ def eval_bool(c, env):
             x = eval_bool(a, env); y = eval_bool(b, env)
             r = "lt" if x < y else ("gt" if x > y else "eq")
             return r in OPS[op]
+        if op in ("eq", "ne") and ty in vg.INT_BITS:
+            # discriminant of an Ordering against a constant: decided by the comparison it came from
+            for x, k in ((a, b), (b, a)):
+                if tag(x) == "discr" and tag(k) == "const":
+                    try:
+                        v = eval_switch(x, env, (0, 1, 255))
+                    except Undetermined:
+                        raise
+                    same = (v == k[2])
+                    return same if op == "eq" else not same
         dom = REL4 if ty in ("f64", "f32") else REL3
         r = get_rel(env, a, b, ty, dom)
         return r in OPS[op]
